@@ -29,7 +29,8 @@ def main():
     wt = tempfile.mkdtemp(prefix="seedtest-", dir="/var/tmp")
     os.rmdir(wt)
     env = dict(os.environ, GOFLAGS="-mod=mod", GOPROXY="off", GOSUMDB="off", GOTOOLCHAIN="local")
-    rc, out = sh(["git", "-C", "/repo", "worktree", "add", "--detach", "-q", wt, "HEAD"])
+    base = os.environ.get("VERIF_REPO", "/repo")   # a builder's repo worktree when set: the change is applied on top of its HEAD
+    rc, out = sh(["git", "-C", base, "worktree", "add", "--detach", "-q", wt, "HEAD"])
     if rc != 0:
         print(out); sys.exit(2)
     res = {"patch": patch, "checks": {}}
